@@ -151,7 +151,7 @@ def render(dot, predicate: Predicate, node_nr):
                     dot.edge(kv, to_value(value), label="value")
                 return node
             case IsInstancePredicate(klass):
-                name = klass[0].__name__  # type: ignore
+                name = "_or_".join(k.__name__ for k in klass)  # type: ignore
                 return add_node("instance", label=f"is_{name}_p")
             case IsNonePredicate():
                 return add_node("none", label="x = None")
